@@ -160,12 +160,15 @@ def isDigit (b : UInt8) : Bool := 48 ≤ b.toNat && b.toNat ≤ 57
     equivalent to the per-step `checked_mul/checked_add` because the accumulator only grows) -/
 def decValue (ds : Bytes) : Nat := ds.foldl (fun acc d => acc * 10 + (d.toNat - 48)) 0
 
+/-- the optional single leading `+` accepted by `from_str_radix` -/
+def stripPlus : Bytes → Bytes
+  | 43 :: rest => rest            -- '+'
+  | s => s
+
 /-- `str::parse::<u64>()`: an optional single `+`, then at least one ASCII digit, nothing else;
     `""`, `"+"`, `"-"` and values ≥ 2^64 are errors. -/
 def parseU64 (s : Bytes) : Option Nat :=
-  let ds := match s with
-    | 43 :: rest => rest          -- '+'
-    | _ => s
+  let ds := stripPlus s
   if ds.isEmpty then none
   else if ds.all isDigit then
     let v := decValue ds
@@ -237,6 +240,12 @@ def exidToStr : ExId → Bytes
   | .root => [95, 114, 111, 111, 116]   -- "_root"
   | .id ctr actor _ => decEncode ctr ++ [64] ++ hexEncode actor
 
+/-- the `-` prefix test (`strip_prefix('-')`, formerly `&s[0..1] == "-"`): the move mode and the
+    byte offset where the counter starts -/
+def movePrefix : Bytes → Move × Nat
+  | 45 :: _ => (.before, 1)
+  | _ => (.after, 0)
+
 /-- `Cursor::from_str` + `TryFrom<&str>` after fix D7 (`strip_prefix('-')`).
     `s[i..n]` would panic for `n < i`; that branch is kept and proved unreachable. Both offsets are
     positions of ASCII bytes of a valid UTF-8 string, hence char boundaries. -/
@@ -246,19 +255,17 @@ def cursorFromStr (s : Bytes) : Outcome IErr Cursor :=
     else if s = [101] then .ok .end
     else .err .cursorFormat
   else
-    let (mv, i) := match s with
-      | 45 :: _ => (Move.before, 1)
-      | _ => (Move.after, 0)
+    let mp := movePrefix s
     match findAt s with
     | none => .err .cursorFormat
     | some n =>
-      if n < i then .panic .sliceIndex else
-      match parseU64 ((s.take n).drop i) with
+      if n < mp.2 then .panic .sliceIndex else
+      match parseU64 ((s.take n).drop mp.2) with
       | none => .err .cursorFormat
       | some ctr =>
       match hexDecode (s.drop (n + 1)) with
       | none => .err .cursorFormat
-      | some actor => .ok (.op ctr actor mv)
+      | some actor => .ok (.op ctr actor mp.1)
 
 /-- `str::is_char_boundary(1)` on the UTF-8 bytes -/
 def isBoundary1 (s : Bytes) : Bool :=
@@ -275,19 +282,17 @@ def cursorFromStrPrefix (s : Bytes) : Outcome IErr Cursor :=
     else .err .cursorFormat
   else
     if !isBoundary1 s then .panic .sliceIndex else
-    let (mv, i) := match s with
-      | 45 :: _ => (Move.before, 1)
-      | _ => (Move.after, 0)
+    let mp := movePrefix s
     match findAt s with
     | none => .err .cursorFormat
     | some n =>
-      if n < i then .panic .sliceIndex else
-      match parseU64 ((s.take n).drop i) with
+      if n < mp.2 then .panic .sliceIndex else
+      match parseU64 ((s.take n).drop mp.2) with
       | none => .err .cursorFormat
       | some ctr =>
       match hexDecode (s.drop (n + 1)) with
       | none => .err .cursorFormat
-      | some actor => .ok (.op ctr actor mv)
+      | some actor => .ok (.op ctr actor mp.1)
 
 /-! ### actor table, `import_obj`, resolution (automerge.rs) -/
 
